@@ -178,3 +178,93 @@ class SocketModule(object):
     error = OSError
     gaierror = _real.gaierror
     timeout = _real.timeout
+
+
+class VPacketSocket(object):
+    '''AF_PACKET / SOCK_RAW look-alike: whole Ethernet frames on a named
+    virtual interface.'''
+    family = getattr(_real, 'AF_PACKET', 17)
+    type = _real.SOCK_RAW
+
+    def __init__(self, net, proto):
+        self.net = net
+        self.proto = proto
+        self.bound = None      # (ifname, proto, pkttype, hatype, mac)
+        self.rxq = []
+        self.closed = False
+        self.opts = []
+
+    def __repr__(self):
+        return '<vpacket %r%s>' % (self.bound, ' closed' if self.closed else '')
+
+    def _v_poll(self, env):
+        from gi.repository import GLib
+        if self.closed:
+            return 0
+        return GLib.IO_OUT | (GLib.IO_IN if self.rxq else 0)
+
+    def fileno(self):
+        return -1 if self.closed else 300
+
+    def setsockopt(self, *args):
+        self.opts.append(tuple(a if not isinstance(a, (bytes, bytearray)) else bytes(a) for a in args))
+
+    def setblocking(self, flag):
+        return None
+
+    def bind(self, sockaddr):
+        self.bound = tuple(sockaddr)
+        self.net.packet_socks.append(self)
+
+    def getsockname(self):
+        if self.bound is None:
+            return ('', self.proto, 0, 1, b'\x00' * 6)
+        return (self.bound[0], self.bound[1], 0, 1, bytes(self.bound[4]))
+
+    def send(self, frame):
+        if self.closed:
+            raise OSError(errno.EBADF, 'Bad file descriptor')
+        frame = bytes(frame)
+        ifname = self.bound[0] if self.bound else None
+        self.net.frames.append(dict(ifname=ifname, frame=frame))
+        self.net.frame_log.append(dict(ifname=ifname, frame=frame))
+        return len(frame)
+
+    def sendto(self, frame, address):
+        return self.send(frame)
+
+    def recvfrom(self, bufsize, flags=0):
+        if self.closed:
+            raise OSError(errno.EBADF, 'Bad file descriptor')
+        if not self.rxq:
+            raise BlockingIOError(errno.EAGAIN, 'Resource temporarily unavailable')
+        frame = self.rxq.pop(0)
+        src = frame[6:12]
+        # (ifname, proto, pkttype, hatype, addr); PACKET_HOST = 0
+        return (frame[:bufsize], (self.bound[0] if self.bound else '', self.proto, 0, 1, src))
+
+    def close(self):
+        self.closed = True
+        try:
+            self.net.packet_socks.remove(self)
+        except ValueError:
+            pass
+
+    def shutdown(self, how):
+        return None
+
+
+class PacketNet(object):
+    def __init__(self):
+        self.packet_socks = []
+        self.frames = []       # in flight
+        self.frame_log = []
+
+    def inject(self, ifname, frame):
+        '''Deliver a frame to every socket bound on the interface.'''
+        done = False
+        for sock in self.packet_socks:
+            if sock.bound and sock.bound[0] == ifname and not sock.closed:
+                sock.rxq.append(bytes(frame))
+                done = True
+        return done
